@@ -62,6 +62,7 @@ PropsOK(P, Q) ==
   /\ Ev.obs.wireok                                                            \* C07: every emitted message is valid and re-parses unchanged
   /\ RulePreserved(D, P, Q) /\ PubRuleOK(D, P, Q)                             \* C09
   /\ (Ev.o = "assign" => AssignOnOK(D, P, Q, Ev.v, Ev.e, Ev.x))
+  /\ (Ev.o = "sel" /\ (\A h \in DOMAIN D.hs : D.hs[h].v # Ev.v) => SelectOnOK(D, Q, Ev.v, Range(Ev.names)))
   /\ (Ev.o \in {"new", "get", "tick"} => ~Q.raised)                           \* C12
   /\ (Ev.o = "new" => FrameOK(D, P, Q, Ev.t, Ev.n))                           \* C06 / C12
   /\ (Ev.o = "new" /\ Ev.t # None /\ VecOf(D, Ev.t, Ev.n) # 0 /\ KindOK(VecOf(D, Ev.t, Ev.n), Ev.ch)
@@ -135,6 +136,7 @@ ContractOK ==
   /\ ReadContractObs
   /\ RulePreserved(D, PO, QO) /\ PubRuleOK(D, PO, QO)
   /\ (Ev.o = "assign" => AssignOnOK(D, PO, QO, Ev.v, Ev.e, Ev.x))
+  /\ (Ev.o = "sel" /\ (\A h \in DOMAIN D.hs : D.hs[h].v # Ev.v) => SelectOnOK(D, QO, Ev.v, Range(Ev.names)))
   /\ (Ev.o \in {"new", "get", "tick"} => ~QO.raised)
   /\ (Ev.o = "new" => FrameOK(D, PO, QO, Ev.t, Ev.n))
   /\ (Ev.o = "new" /\ Ev.t # None /\ VecOf(D, Ev.t, Ev.n) # 0 /\ KindOK(VecOf(D, Ev.t, Ev.n), Ev.ch)
